@@ -68,6 +68,18 @@ Fixpoint bhandle_spec (nest : nat) (b : bserver) (s : sid) (c : bcmd) {struct c}
   | Some ss =>
     match c with
     | BBase c0 => absorb b (handle fx nest (b_sv b) s c0)
+    | BSetSup flags items =>
+      fold_left (fun b' it =>
+                   match get_session (b_sv b') s with
+                   | Some ss' => match fst it with
+                                 | [] => b'
+                                 | _ => bset_data_loop b' (s_id ss') (session_dir ss') (fst it) (snd it)
+                                          (flag_set flags c_SETDATANODE_FLAG_DONTCREATENODE)
+                                          (flag_set flags c_SETDATANODE_FLAG_DONTOVERWRITEDATA)
+                                          (flag_set flags c_SETDATANODE_FLAG_QUIET) true
+                                 end
+                   | None => b'
+                   end) items b
     | BPing t => enqueue b s (OPong t)
     | BNoop => b
     | BBounce code what => enqueue b s (OBounce code what)
